@@ -246,7 +246,10 @@ def proxy_key_law(k1: int, k2: int, v1: int, v2: int, w1: int, w2: int, fmt: int
 	pre: 0 <= k1 < 3 and 0 <= k2 < 3 and 0 <= v1 < 3 and 0 <= v2 < 3 and 0 <= w1 < 2 and 0 <= w2 < 2 and 0 <= fmt < 6
 	post: _
 	"""
-	k1, k2, v1, v2, w1, w2, fmt = decode(k1, 3), decode(k2, 3), decode(v1, 3), decode(v2, 3), decode(w1, 2), decode(w2, 2), decode(fmt, 6)
+	return ok(natively(_proxy_key, decode(k1, 3), decode(k2, 3), decode(v1, 3), decode(v2, 3), decode(w1, 2), decode(w2, 2), decode(fmt, 6)))
+
+
+def _proxy_key(k1: int, k2: int, v1: int, v2: int, w1: int, w2: int, fmt: int) -> bool:
 	basedir = BASEDIRS[fmt // 2]
 	fmt = fmt % 2
 	saved = (cache_module.os, cache_module.glob, getattr(cache_module, 'open', None))
@@ -268,13 +271,13 @@ def proxy_key_law(k1: int, k2: int, v1: int, v2: int, w1: int, w2: int, fmt: int
 		same = (k1, v1, w1) == (k2, v2, w2)
 		cover('same' if same else 'different')
 		if not (a == 'A' and b == ('loaded:A' if same else 'B')):
-			return ok(False)
+			return False
 		if k1 == k2 and not same:
 			# eviction: the file an earlier run stored for the same cache key under another identity is gone, so that a later run
 			# whose identity happens to equal the older one (an mtime that comes back) cannot be served the older content
 			cover('evicted')
-			return ok(len(first) == 1 and first[0] not in FILES)
-		return ok(True)
+			return len(first) == 1 and first[0] not in FILES
+		return True
 	finally:
 		cache_module.os, cache_module.glob = saved[0], saved[1]
 		if saved[2] is None:
